@@ -136,6 +136,9 @@ pub struct CaseSpec {
     pub max_events: usize,
     /// upload target already exists with this many bytes of unrelated content (0 = no file)
     pub pre_existing: u64,
+    /// the write failpoint is disarmed again when the worker makes its n-th receive call (a transient storage error:
+    /// space that is freed, a quota that is raised)
+    pub write_rearm_at_recv: Option<u64>,
 }
 
 impl CaseSpec {
@@ -526,7 +529,7 @@ impl Core {
             }
             Stray::Oack => (wire::enc_oack(&[]), 0, "stray-oack"),
             Stray::Junk => (vec![0, 9, 1, 2, 3], 0, "stray-junk"),
-            Stray::Error => (wire::enc_error(0, &error_text(self.spec.peer.error_text)), 0, "stray-error"),
+            Stray::Error => (wire::enc_error(error_code(self.spec.peer.error_text), &error_text(self.spec.peer.error_text)), 0, "stray-error"),
         }
     }
 
@@ -549,7 +552,7 @@ impl Core {
                 self.rules_fired += 1;
                 self.peer_muted = true;
                 self.peer.abort();
-                o = Out { bytes: wire::enc_error(0, &error_text(self.spec.peer.error_text)), is_data: false, abs: 0 };
+                o = Out { bytes: wire::enc_error(error_code(self.spec.peer.error_text), &error_text(self.spec.peer.error_text)), is_data: false, abs: 0 };
             }
             let idx = self.idx_p2w;
             self.idx_p2w += 1;
@@ -688,6 +691,9 @@ impl Core {
         self.start_peer();
         self.in_burst = false;
         self.recv_calls += 1;
+        if self.spec.write_rearm_at_recv == Some(self.recv_calls as u64) {
+            tftpd::verif::set_write_budget(None);
+        }
         let deadline = self.now + self.spec.read_timeout_ns;
         match self.step_until(deadline, true) {
             None => {
@@ -795,9 +801,20 @@ impl Core {
 }
 
 /// ERROR message variants: peers may send any text; long valid UTF-8 with a multi-byte character at various offsets
+/// ERROR code that goes with message kind `kind`: kinds 100..=107 are a short message with code kind-100, the long
+/// messages cycle through all eight codes, kind 0 is code 0
+pub fn error_code(kind: u8) -> u16 {
+    match kind {
+        0 => 0,
+        100..=107 => (kind - 100) as u16,
+        k => (k % 8) as u16,
+    }
+}
+
 pub fn error_text(kind: u8) -> Vec<u8> {
     match kind {
         0 => b"peer gives up".to_vec(),
+        100..=107 => format!("peer gives up with code {}", kind - 100).into_bytes(),
         k => {
             let pre = [0usize, 31, 62, 63, 64, 127, 254, 255, 256][(k as usize - 1) % 9];
             let ch = ["\u{e9}", "\u{6587}", "\u{1F600}"][(k as usize - 1) / 9 % 3];
